@@ -92,6 +92,9 @@ func c12Enumerate(tier string, emit func(*eng.Case)) {
 	for _, sc := range c12Scenarios() {
 		// V-level: unbounded over visible operations
 		emit(&eng.Case{Kind: "sched", P: map[string]string{"scenario": sc.name, "level": "V", "bound": "1000", "shard": "0", "nshards": "1", "doc": sc.name + " V-level unbounded"}})
+		if sc.name == "S-h-url" {
+			continue // below the entry point this is S-a-min; the entry point itself is explored at A-level
+		}
 		// F-level
 		bound := 1
 		if tier == "thorough" && (sc.name == "S-a-min") {
@@ -111,7 +114,7 @@ func c12Enumerate(tier string, emit func(*eng.Case)) {
 	// A-level: the entry points themselves (what they do with the caller's Options before and after
 	// the extraction) interleaved with two preemptions
 	for _, name := range []string{"S-h-url", "S-a-min", "S-e-log"} {
-		emit(&eng.Case{Kind: "sched", P: map[string]string{"scenario": name, "level": "A", "bound": "2", "shard": "0", "nshards": "1", "doc": name + " A-level (operations of the root package only) bound 2"}})
+		emit(&eng.Case{Kind: "sched", P: map[string]string{"scenario": name, "level": "A", "bound": "1000", "shard": "0", "nshards": "1", "doc": name + " A-level (function entries of distiller.go) unbounded"}})
 	}
 	// X: the documents of the other checks (quick: every 16th document of the cross corpus), two
 	// calls sharing tree and Options, V-level
@@ -385,10 +388,11 @@ func c12Check(c *eng.Case) *eng.Outcome {
 		}
 		switch level {
 		case "A":
-			// API level: every hooked operation in the files of the root package (entry points,
-			// option handling, output assembly), nothing below them
+			// API level: the function entries of distiller.go (entry points, parsing, output assembly),
+			// i.e. the moments between what an entry point does with the caller's Options and the
+			// extraction proper; nothing below them
 			s.IsPoint = func(ev *eng.SchedEvent) bool {
-				return ev.Site >= 0 && ev.Site < len(verifrt.Sites) && !strings.Contains(strings.Fields(verifrt.Sites[ev.Site] + " x")[0], "/")
+				return ev.Kind == verifrt.KEnter && ev.Site >= 0 && ev.Site < len(verifrt.Sites) && strings.HasPrefix(verifrt.Sites[ev.Site], "distiller.go:") && !strings.Contains(verifrt.Sites[ev.Site], ".func")
 			}
 		case "F":
 			s.IsPoint = func(ev *eng.SchedEvent) bool { return true }
@@ -608,7 +612,7 @@ func init() {
 		ID:        "C12",
 		DesignRef: "§5 C12",
 		Rule: "closed drivers with forced sharing: S-a two Apply calls on one shared tree with one shared *Options (minimal page; rich page with table, figure, embed, pager), S-b two different rich pages with shared Options, S-c three threads (S-a + a LogEverything/PageNumber call), S-d Apply(tree) || ApplyForReader(bytes), S-e two logging calls, S-f two calls on a page whose paragraphs each sit in their own wrapper and whose root carries a legacy xmlns namespace prefix, S-h two ApplyForURL calls (different addresses, in-process transport) sharing one *Options, S-g two pages that declare the OpenGraph namespace through prefix attributes with different values; X: the S-a shape (two calls, shared tree, shared Options, the document's own page URL and algorithm) for every 16th (thorough: 8th) document of the cross corpus (documents of C02-C04, C06-C10, C13-C20), V-level. " +
-			"Each scenario is explored by a DFS over the cooperative scheduler's choice points: V-level (scheduling points only at visible operations: package variables ever written, writes to shared trees, lock operations) without preemption bound; A-level (scheduling points at the hooked operations of the root package only: entry points, option handling, output assembly) with preemption bound 2 on S-h, S-a-min and S-e; F-level (every function entry, loop iteration, package-variable access and node write is a scheduling point) with preemption bound 1 (bound 2 for S-a-min in thorough; in quick the two rich scenarios are explored on every 4th of 48 shards). " +
+			"Each scenario is explored by a DFS over the cooperative scheduler's choice points: V-level (scheduling points only at visible operations: package variables ever written, writes to shared trees, lock operations) without preemption bound; A-level (scheduling points at the function entries of distiller.go only, i.e. between an entry point's handling of the caller's Options and the extraction proper) without preemption bound on S-h, S-a-min and S-e; F-level (every function entry, loop iteration, package-variable access and node write is a scheduling point) with preemption bound 1 (bound 2 for S-a-min in thorough; in quick the two rich scenarios are explored on every 4th of 48 shards). " +
 			"Oracle on every schedule: each thread's canonical result equals its solo result; no pair of conflicting package-variable accesses from different threads without a common lock; no write to a node of a shared input tree; shared Options and trees unchanged; no panic, deadlock or horizon overrun. Plus one free-running pass of the same bodies (X scenarios included) under the Go race detector. " +
 			"Non-trivial = shards whose executions include >= 1 preemption.",
 		Enumerate:  c12Enumerate,
